@@ -82,9 +82,12 @@ WS_VARIANTS = {
     "all-plus": {"pkg/__init__.py": "from .mod import *\nfrom .other import *\n", "pkg/mod.py": "from . import base\nfrom .base import *\n__all__ = ['x'] + base.__all__\nx = 1\n"},
     "init-all": {"pkg/__init__.py": "from . import mod\nfrom .mod import *\n__all__ = ['top', *mod.__all__]\ntop = 0\n", "pkg/mod.py": "from .base import *\nfrom . import base\n__all__ = [*base.__all__, 'x']\nx = 1\n"},
     "no-all": {"pkg/__init__.py": "from .mod import *\nfrom .base import *\n", "pkg/mod.py": "from .other import *\nx = 1\n"},
+    # the package defines o and OC itself, several lines down; the stubs may wildcard-import the same names from .other
+    "local-defs": {"pkg/__init__.py": "import os\nimport sys\nx = 1\n\n\ndef o():\n    return 1\n\n\nclass OC:\n    own = 1\n", "pkg/mod.py": "y = 2\n"},
     "chain": {"pkg/__init__.py": "from .mod import *\n", "pkg/mod.py": "from .base import *\nfrom .other import *\nx = 1\n"},
 }
-WS_STUBS = {"x-int": "x: int\n", "empty": "", "stub-only": "x: int\ndef only_in_stubs() -> int: ...\n", "wildcard": "from .mod import *\nx: int\n"}
+WS_STUBS = {"x-int": "x: int\n", "empty": "", "stub-only": "x: int\ndef only_in_stubs() -> int: ...\n", "wildcard": "from .mod import *\nx: int\n", "wildcard-other": "from .other import *\nx: int\n",
+            "wildcard-other-late": "x: int\n" + "\n" * 20 + "from .other import *\n"}
 
 
 def _run_ws(griffe, acc, case):
@@ -108,7 +111,13 @@ def _run_ws(griffe, acc, case):
             loader.resolve_aliases(implicit=True, external=False)
             out = {}
             for n, m in loader.modules_collection["pkg"].members.items():
-                out[n] = ("alias", m.target_path) if m.is_alias else (m.kind.value, None)
+                if m.is_alias:
+                    try:
+                        out[n] = ("alias", m.final_target.path)  # (the object reached: stubs may re-export it more directly)
+                    except Exception:  # noqa: BLE001
+                        out[n] = ("alias", "unresolved:" + m.target_path)
+                else:
+                    out[n] = (m.kind.value, None)
             return out
 
     try:
